@@ -434,8 +434,10 @@ def write_evidence(mod, tier, seed, merged, wall, violations, extra=None):
         wall_s=round(float(wall), 2),
         violations=int(violations),
     )
-    os.makedirs(os.path.join(VERIF, "evidence"), exist_ok=True)
-    path = os.path.join(VERIF, "evidence", f"{prop}.json")
+    # VERIF_OUT redirects run-time output (evidence, new-* replays) for runs against scratch copies of the repo
+    edir = os.path.join(os.environ["VERIF_OUT"], "evidence") if os.environ.get("VERIF_OUT") else os.path.join(VERIF, "evidence")
+    os.makedirs(edir, exist_ok=True)
+    path = os.path.join(edir, f"{prop}.json")
     tmp = path + ".tmp"
     with open(tmp, "w") as f:
         json.dump(ev, f, indent=1, default=_json_default)
@@ -594,7 +596,9 @@ def main(argv=None):
         b = buckets[k]
         tag = hashlib.sha1((k + canon(b["spec"])).encode()).hexdigest()[:8]
         safe = "".join(c if c.isalnum() or c in "-_." else "_" for c in f"{sub}-{site}")[:80]
-        p = os.path.join(rdir, f"new-{safe}-{tag}.json")
+        odir = os.path.join(os.environ["VERIF_OUT"], "replays", prop) if os.environ.get("VERIF_OUT") else rdir
+        os.makedirs(odir, exist_ok=True)
+        p = os.path.join(odir, f"new-{safe}-{tag}.json")
         with open(p, "w") as f:
             json.dump(
                 dict(
@@ -615,7 +619,7 @@ def main(argv=None):
                 default=_json_default,
             )
         print(f"  bucket {sub} @ {site}: {b['count']} failing cases, magnitude={b['magnitude']} {b.get('detail') or ''}")
-        violations.append(((sub, site), os.path.relpath(p, VERIF)))
+        violations.append(((sub, site), p if os.environ.get("VERIF_OUT") else os.path.relpath(p, VERIF)))
 
     wall = time.time() - t0
     extra = dict(
